@@ -1224,6 +1224,32 @@ Proof.
   - rewrite app_length, I4. simpl. lia.
 Qed.
 
+(* the number the joiners widen the pointer dtype for bounds every pointer entry AND every row number *)
+Theorem indptr_needed_bounds_proof (members : list (list Z * Z)) :
+  members <> [] -> Forall (fun m => indptr_ok (fst m) (snd m)) members ->
+  exists needed,
+    indptr_needed site_gcxs_concatenate_indptr_needed members = Ok needed
+    /\ indptr_needed site_gcxs_stack_indptr_needed members = Ok needed
+    /\ Forall (fun v => 0 <= v <= needed) (splice members)
+    /\ Z.of_nat (length (splice members)) - 1 <= needed.
+Proof.
+  intros Hne Hall. destruct (indptr_splice_wf_proof members Hne Hall) as [[Hh [Hs Hl]] _].
+  set (T := zsum (map snd members)) in *. set (L := Z.of_nat (length (splice members))).
+  exists (Z.max T (L - 1)).
+  assert (E : forall f, f = site_gcxs_concatenate_indptr_needed \/ f = site_gcxs_stack_indptr_needed ->
+                        indptr_needed f members = Ok (Z.max T (L - 1))).
+  { intros f [-> | ->]; unfold indptr_needed; fold T; fold L;
+      [unfold site_gcxs_concatenate_indptr_needed|unfold site_gcxs_stack_indptr_needed]; cbn;
+      destruct (Z.ltb_spec T (L - 1)); cbn; f_equal; lia. }
+  split; [apply E; left; reflexivity|]. split; [apply E; right; reflexivity|]. split; [|lia].
+  pose proof (SS_le_last_bound _ (-1) Hs) as Hhi. rewrite Hl in Hhi.
+  destruct (splice members) as [|a t] eqn:Es; [constructor|]. simpl in Hh. subst a.
+  pose proof (SS_le_head_bound 0 t Hs) as Hlo.
+  inversion Hhi as [|? ? H0 Hhi']; subst.
+  constructor; [lia|]. apply Forall_forall. intros v Hv. rewrite Forall_forall in Hlo, Hhi'.
+  specialize (Hlo _ Hv). specialize (Hhi' _ Hv). lia.
+Qed.
+
 (* indptr_ok is what GCXS.gcxs_wfb demands of an index pointer with rows+1 entries *)
 Lemma nondecreasing_SS (l : list Z) : nondecreasing l = true <-> StronglySorted Z.le l.
 Proof.
